@@ -170,6 +170,10 @@ func (w *World) decide(class string, proc int, callIdx int, op *OpRec) string {
 			if fp.Kinds["alloc.err"] {
 				cands = append(cands, FErrBefore)
 			}
+		case class == "sf.release":
+			if fp.Kinds["release.err"] {
+				cands = append(cands, FErrBefore)
+			}
 		}
 		if len(cands) > 0 && w.T.Chance(fp.RateNum, fp.RateDen, "fault?") {
 			kind = cands[w.T.Choose(len(cands), "fault.kind")]
